@@ -6,5 +6,5 @@ SRC=/tmp/wt-$P/SEEDED
 DST=/verif/seeded/$ID
 mkdir -p "$DST"
 cp "$SRC"/patch.diff "$DST"/patch.diff
-for f in "$SRC"/*; do b=$(basename "$f"); case "$b" in patch.diff) ;; evidence_*|extra_*) tail -c 3000 "$f" > "$DST/$b" ;; *) cp "$f" "$DST/$b" ;; esac; done
+for f in "$SRC"/*; do b=$(basename "$f"); case "$b" in patch.diff) ;; evidence_*|extra_*) tail -c 3000 "$f" > "$DST/$b" ;; *) cp -r "$f" "$DST/$b" ;; esac; done
 cd /repo && git apply --check "$DST/patch.diff" && echo "patch applies to /repo HEAD"
